@@ -773,6 +773,10 @@ func childMain(c *vkit.Ctx) {
 func main() {
 	logger.SetLogLevel(logger.FatalLevel)
 	c := vkit.Start("C03", "exploration")
+	if c.Child == "neighbours" {
+		neighboursChild(c)
+		c.Finish()
+	}
 	if c.Child != "" {
 		childMain(c)
 		c.Finish()
@@ -794,6 +798,7 @@ func main() {
 			Args: map[string]string{"lo": strconv.Itoa(p), "step": strconv.Itoa(nproc)},
 			Env:  []string{fmt.Sprintf("GOMAXPROCS=%d", []int{2, 4, 16}[p%3])}})
 	}
+	specs = append(specs, vkit.ChildSpec{Mode: "neighbours", Tag: "neighbours", Timeout: 10 * time.Minute})
 	for _, r := range c.RunChildren(specs, nproc) {
 		if r.Partial != nil {
 			c.Merge(*r.Partial)
@@ -814,6 +819,8 @@ func main() {
 	c.Require("phase:hand-back", 20)
 	c.Require("phase:quota-hit", 5)
 	c.Require("phase:paced-observation", 5)
+	c.Require("neighbour_restarts_checked", 40)
+	c.Require("neighbour_chunks_recovered", 120)
 	c.Finish()
 }
 
